@@ -89,6 +89,19 @@ def wrapper_crps(tier):
         out.append(('observations-with-missing-value-dropped', np.array_equal(c.args[2], np.array(obs)[keep]), dict(tag, got=c.args[2].tolist())))
         out.append(('matching-ensemble-rows', np.array_equal(c.args[3], np.array(ens)[keep], equal_nan=True), dict(tag, got=c.args[3].tolist())))
         out.append(('table-and-decomposition-zeroed', c.args[5].shape == (m + 1, 7) and np.all(c.args[5] == 0) and c.args[6].shape == (5,) and np.all(c.args[6] == 0), tag))
+    # what the kernel writes is what the caller gets (negative resolution included)
+    vals = np.array([0.7, 0.2, -0.3, 0.2, 0.5])
+
+    def fill(c):
+        c.raw_args[6][:] = vals
+        c.raw_args[5][:] = np.arange(c.raw_args[5].size, dtype=float).reshape(c.raw_args[5].shape) - 3.0
+        return 0
+    rec = Recorder({'crps': fill})
+    with patched_module(M, 'c_hydrodiy_stat', rec):
+        dec, tab = M.crps(np.array([1.0, 2.0]), np.array([[1., 2.], [2., 3.]]))
+    out.append(('decomposition-returned-as-computed', list(dec.index) == ['crps', 'reliability', 'resolution', 'uncertainty', 'potential'] and
+                np.array_equal(dec.values, vals), dict(got=dec.values.tolist())))
+    out.append(('table-returned-as-computed', np.array_equal(tab.values, np.arange(21, dtype=float).reshape(3, 7) - 3.0), {}))
     return out
 
 
